@@ -8,7 +8,8 @@
                                                function of the action alone, 1 = single crash / 2 = crash of a recovery.
 
    check_rcase known c : list (list nat)
-     CRun: [ engine automaton: Accept.check_trace ; [0] | [1; k] read-back k differs from crash_image sh tr k ]
+     CRun: [ engine automaton: Accept.check_trace ; [0] | [1; k] read-back k differs from crash_image sh tr k ;
+             the resumed automaton started on the fresh plan (Resume.rfresh), no flag: same codes as below ]
      CRec: [ resumed automaton under every flag: [0] | [1; i; kind; rphase; pphase; bphase] first rejected event
                                                  | [2; rphase; pphase; bphase] never released | [3] conc = 0
                                                  | [4] the repaired image is not one a run can start from ;
@@ -27,23 +28,7 @@ Inductive rcase :=
 | CRun (sh : shape) (tr : list event) (snaps : list image)
 | CRec (sh : shape) (I : image) (tr : list event) (verdict : status) (determined : bool) (level : nat).
 
-(* ------------------------------------------------------------------ CRun *)
-(* read-back k (1-based) against the image after the first k writes, incrementally *)
-Fixpoint snaps_agree (objs : list obj) (ir : dimg * reason) (ws : list (obj * cell * reason)) (snaps : list image) (k : nat)
-  : option nat :=
-  match ws, snaps with
-  | w :: ws', sn :: snaps' =>
-      let ir' := apply_write ir w in
-      if image_agrees objs (fst ir') (snd ir') sn then snaps_agree objs ir' ws' snaps' (S k) else Some k
-  | [], [] => None
-  | _, _ => Some k                      (* not one read-back per write *)
-  end.
-
-Definition check_run (sh : shape) (tr : list event) (snaps : list image) : list (list nat) :=
-  [ check_trace sh tr;
-    match snaps_agree (all_objs sh) ([], FRUnknown) (writes_of tr) snaps 1 with None => [0] | Some k => [1; k] end ].
-
-(* ------------------------------------------------------------------ CRec *)
+(* ------------------------------------------------------------------ diagnosis of a run of the resumed automaton *)
 Definition rphase_code (p : rphase) : nat := match p with RIdle => 0 | RRecover _ => 1 | RRun => 2 end.
 
 Fixpoint rrun_diag (d : devs) (sh : shape) (r : rst) (tr : list event) (i : nat) : (rst * option (nat * event)) :=
@@ -57,6 +42,32 @@ Fixpoint rrun_diag (d : devs) (sh : shape) (r : rst) (tr : list event) (i : nat)
 Definition where_codes (r : rst) : list nat :=
   [rphase_code (r_ph r); pphase_code (s_ph (r_s r)); bphase_code (b_ph (s_b (r_s r)))].
 
+(* ------------------------------------------------------------------ CRun *)
+(* read-back k (1-based) against the image after the first k writes, incrementally *)
+Fixpoint snaps_agree (objs : list obj) (ir : dimg * reason) (ws : list (obj * cell * reason)) (snaps : list image) (k : nat)
+  : option nat :=
+  match ws, snaps with
+  | w :: ws', sn :: snaps' =>
+      let ir' := apply_write ir w in
+      if image_agrees objs (fst ir') (snd ir') sn then snaps_agree objs ir' ws' snaps' (S k) else Some k
+  | [], [] => None
+  | _, _ => Some k                      (* not one read-back per write *)
+  end.
+
+(* the resumed automaton started on the fresh plan accepts the uninterrupted run (no deviation flag) *)
+Definition check_fresh (sh : shape) (tr : list event) : list nat :=
+  if negb (shape_wf sh) then [3] else
+  match rrun_diag dev_none sh (rfresh sh) tr 0 with
+  | (r, Some (i, e)) => [1; i; event_kind e] ++ where_codes r
+  | (r, None) => if rreleased r then [0] else 2 :: where_codes r
+  end.
+
+Definition check_run (sh : shape) (tr : list event) (snaps : list image) : list (list nat) :=
+  [ check_trace sh tr;
+    match snaps_agree (all_objs sh) ([], FRUnknown) (writes_of tr) snaps 1 with None => [0] | Some k => [1; k] end;
+    check_fresh sh tr ].
+
+(* ------------------------------------------------------------------ CRec *)
 Definition check_resume (d : devs) (sh : shape) (I : image) (tr : list event) : list nat :=
   if negb (shape_wf sh) then [3] else
   match rinit sh (dimg_of_image I) (im_reason I) with
